@@ -87,7 +87,7 @@ PROFILES.update({
                    p_allow_dup=0.15)),
             (2, _p(world="sim", kinds=[k for k in MF_SEEDED if k != "pbt"], p_fault_free=0.6, fault_kinds=["crash"], sim_fixed_seed=True,
                    p_nodelay_false=0.03)),
-            (1, _p(world="mem", kinds=["fifo_bo", "hb_stopping_bo", "hb_promotion_bo", "hb_hypertune", "sync_hb_bo"], max_trials=8,
+            (1, _p(world="mem", kinds=["fifo_bo", "hb_stopping_bo", "hb_promotion_bo", "hb_hypertune", "sync_hb_bo", "hb_dyhpo"], max_trials=8,
                    p_fault_free=0.7, fault_kinds=["crash"], p_nodelay_false=0.0)), ],
     "C15": [(6, _p(world="mem", kinds=[k for k in MF if k != "fifo_grid"] + ["hb_stopping", "hb_promotion", "hb_pasha", "hb_pasha"], p_fault_free=0.6, p_ties=0.0, p_sparse_moasha=0.4,
                    fault_kinds=["crash"], p_nodelay_false=0.03, stop_fields=["max_num_trials_started", "max_num_trials_finished",
